@@ -118,7 +118,53 @@ hx_cc_caller:
 "#
 );
 
+// 256-bit vector arguments: System V passes __m256 in the whole ymm0..7, so the upper halves are
+// argument bits too.  Used only when the CPU has AVX.
+std::arch::global_asm!(
+    r#"
+    .text
+    .p2align 4
+    .globl hx_cc_fake_avx
+hx_cc_fake_avx:
+    vmovdqu [r11 + 0], ymm0
+    vmovdqu [r11 + 32], ymm1
+    vmovdqu [r11 + 64], ymm2
+    vmovdqu [r11 + 96], ymm3
+    vmovdqu [r11 + 128], ymm4
+    vmovdqu [r11 + 160], ymm5
+    vmovdqu [r11 + 192], ymm6
+    vmovdqu [r11 + 224], ymm7
+    vzeroupper
+    ret
+    .globl hx_cc_fake_avx_end
+hx_cc_fake_avx_end:
+    nop
+
+    .p2align 4
+    .globl hx_cc_caller_avx
+hx_cc_caller_avx:
+    sub rsp, 8
+    mov r10, rdi
+    mov r11, rdx
+    vmovdqu ymm0, [rsi + 0]
+    vmovdqu ymm1, [rsi + 32]
+    vmovdqu ymm2, [rsi + 64]
+    vmovdqu ymm3, [rsi + 96]
+    vmovdqu ymm4, [rsi + 128]
+    vmovdqu ymm5, [rsi + 160]
+    vmovdqu ymm6, [rsi + 192]
+    vmovdqu ymm7, [rsi + 224]
+    call r10
+    vzeroupper
+    add rsp, 8
+    ret
+"#
+);
+
 extern "C" {
+    fn hx_cc_fake_avx();
+    static hx_cc_fake_avx_end: u8;
+    fn hx_cc_caller_avx(target: usize, inbuf: *const u64, rec: *mut u64);
     fn hx_cc_target();
     fn hx_cc_fake();
     static hx_cc_fake_end: u8;
@@ -193,6 +239,25 @@ pub fn run(a: &Args, out: &mut impl Write) {
         unsafe { hx_cc_caller(hx_cc_target as usize, inbuf.as_ptr(), outbuf.as_mut_ptr(), rec.as_mut_ptr()) };
         drop(inj);
         writeln!(out, "cc {} | tr={} in={} rec={} out={}", form, hexb(&tr), hexw(&inbuf), hexw(&rec), hexw(&outbuf[..11])).unwrap();
+    }
+    // ---- 256-bit vector arguments (both trampoline forms)
+    if std::is_x86_feature_detected!("avx") {
+        let avx_len = unsafe { &hx_cc_fake_avx_end as *const u8 as usize } - hx_cc_fake_avx as usize;
+        unsafe { arena::write(far + 1024, &arena::read(hx_cc_fake_avx as usize, avx_len)) };
+        for case in 0..(a.n / 4).max(8) {
+            let form = if case % 2 == 0 { "near" } else { "far" };
+            let fake_addr = if form == "near" { hx_cc_fake_avx as usize } else { far + 1024 };
+            let inbuf: Vec<u64> = (0..32).map(|_| r.next()).collect();
+            let mut rec = vec![0u64; 32];
+            let mut inj = InjectorPP::new();
+            unsafe {
+                inj.when_called_unchecked(FuncPtr::new(hx_cc_target as *const (), ""))
+                    .will_execute_raw_unchecked(FuncPtr::new(fake_addr as *const (), ""));
+                hx_cc_caller_avx(hx_cc_target as usize, inbuf.as_ptr(), rec.as_mut_ptr());
+            }
+            drop(inj);
+            writeln!(out, "ccavx {} | in={} rec={}", form, hexw(&inbuf), hexw(&rec)).unwrap();
+        }
     }
     // ---- Rust-level shapes through the typed API
     for _ in 0..a.n {
